@@ -1385,10 +1385,10 @@ Proof.
   assert (Hall : forall m, In m (model_crash_states c) -> CInv (frepr_of c) (k_op c) wss (k_pre c) m).
   { intros m Hin. apply Hsafe. unfold model_crash_states in Hin. apply dedupe_In in Hin.
     apply crash_list_sound. exact Hin. }
-  revert Hall Hm. generalize (model_crash_states c) as ms. intros ms Hall Hm. revert Hall.
+  clear Hp. revert Hall Hm. generalize (model_crash_states c) as ms. intros ms Hall Hm. revert Hall.
   induction Hm as [|m ob ms obs Hmo Hrest IH]; intro Hall; constructor.
   - split; auto. apply Hall. left. reflexivity.
-  - apply IH; try (intros m' Hin; apply Hall; right; exact Hin).
+  - apply IH. intros m' Hin. apply Hall. right. exact Hin.
 Qed.
 
 (* ------------------------------------------------------------------ Project.clone: a fault leaves an undetectable partial copy *)
